@@ -122,8 +122,9 @@ func VerifyFunc(w *World, cs *ContractSet, ct *Contract) *FuncResult {
 			if !ok {
 				continue
 			}
+			n0 := len(e.obls)
 			e.oblige(out, "post", "post."+clauseName(cl, i), g, cl.Line)
-			if len(cl.Props) > 0 {
+			if len(cl.Props) > 0 && len(e.obls) > n0 {
 				e.obls[len(e.obls)-1].Props = cl.Props
 			}
 		}
